@@ -97,41 +97,7 @@ func (x *Exec) lockOp(n *node, recv Value, pos token.Pos, what string) {
 			}
 			delete(st.Written, key)
 		}
-		// ghost tokens shared under this lock: anything may have happened to tokens this thread does not hold
-		// (value 2 = held by the current thread); the set of tokens it holds is unchanged
-		for _, tk := range li.Tokens {
-			key := "ghost." + tk
-			srt := Arr(IntS, IntS)
-			old := x.heap(st, key, srt)
-			na := x.VC.Fresh("H.ghost."+tk, srt)
-			o := x.VC.Fresh("to", IntS)
-			x.VC.AssumeForall([]*Term{o}, n.guard, And(Eq(Eq(Select(old, o), IntLit(2)), Eq(Select(na, o), IntLit(2))),
-				IntCmp(">=", Select(na, o), IntLit(0)), IntCmp("<=", Select(na, o), IntLit(2))), "token-stable")
-			st.Heap[key] = na
-			delete(st.Shapes, key)
-			// ghost fields that follow the token: unchanged for objects whose token this thread holds
-			for _, fl := range li.Followers[tk] {
-				var skey string
-				var es *Sort
-				switch {
-				case strings.HasPrefix(fl, "gv_"):
-					skey, es = "ghost.v."+fl[3:], bv64
-				case strings.HasPrefix(fl, "gb_"):
-					skey, es = "ghost."+fl[3:], BoolS
-				case strings.HasPrefix(fl, "gf_"):
-					skey, es = "ghost."+fl[3:], IntS
-				default:
-					continue
-				}
-				ssrt := Arr(IntS, es)
-				sold := x.heap(st, skey, ssrt)
-				sna := x.VC.Fresh("H."+skey, ssrt)
-				o2 := x.VC.Fresh("to", IntS)
-				x.VC.AssumeForall([]*Term{o2}, n.guard, Implies(Eq(Select(old, o2), IntLit(2)), Eq(Select(sna, o2), Select(sold, o2))), "follower-stable")
-				st.Heap[skey] = sna
-				delete(st.Shapes, skey)
-			}
-		}
+		x.havocTokens(n, li)
 		for _, c := range li.Assumed {
 			env := x.lockEnv(st, n.guard, obj, owner, true)
 			g := env.EvalBool(c.Expr)
@@ -160,6 +126,50 @@ func (x *Exec) lockOp(n *node, recv Value, pos token.Pos, what string) {
 			x.Oblige("lockinv", name+": "+clauseLabel(c), fmt.Sprint(pos), pos, n.guard, g, props)
 		}
 		delete(st.Locks, name)
+		// what this thread knew about tokens it does not hold is stale as soon as the lock is released
+		x.havocTokens(n, li)
+	}
+}
+
+// havocTokens: ghost tokens shared under a lock. Anything may happen to tokens this thread does not hold
+// (value 2 = held by the current thread) whenever the lock is not held; the set of tokens it holds, and the
+// ghost fields that follow them, are unchanged.
+func (x *Exec) havocTokens(n *node, li *LockInv) {
+	st := n.st
+	// ghost tokens shared under this lock: anything may have happened to tokens this thread does not hold
+	// (value 2 = held by the current thread); the set of tokens it holds is unchanged
+	for _, tk := range li.Tokens {
+		key := "ghost." + tk
+		srt := Arr(IntS, IntS)
+		old := x.heap(st, key, srt)
+		na := x.VC.Fresh("H.ghost."+tk, srt)
+		o := x.VC.Fresh("to", IntS)
+		x.VC.AssumeForall([]*Term{o}, n.guard, And(Eq(Eq(Select(old, o), IntLit(2)), Eq(Select(na, o), IntLit(2))),
+			IntCmp(">=", Select(na, o), IntLit(0)), IntCmp("<=", Select(na, o), IntLit(2))), "token-stable")
+		st.Heap[key] = na
+		delete(st.Shapes, key)
+		// ghost fields that follow the token: unchanged for objects whose token this thread holds
+		for _, fl := range li.Followers[tk] {
+			var skey string
+			var es *Sort
+			switch {
+			case strings.HasPrefix(fl, "gv_"):
+				skey, es = "ghost.v."+fl[3:], bv64
+			case strings.HasPrefix(fl, "gb_"):
+				skey, es = "ghost."+fl[3:], BoolS
+			case strings.HasPrefix(fl, "gf_"):
+				skey, es = "ghost."+fl[3:], IntS
+			default:
+				continue
+			}
+			ssrt := Arr(IntS, es)
+			sold := x.heap(st, skey, ssrt)
+			sna := x.VC.Fresh("H."+skey, ssrt)
+			o2 := x.VC.Fresh("to", IntS)
+			x.VC.AssumeForall([]*Term{o2}, n.guard, Implies(Eq(Select(old, o2), IntLit(2)), Eq(Select(sna, o2), Select(sold, o2))), "follower-stable")
+			st.Heap[skey] = sna
+			delete(st.Shapes, skey)
+		}
 	}
 }
 
@@ -252,11 +262,12 @@ func (x *Exec) ghostMapUpdate(n *node, mt *types.Map, mv ssa.Value, m, k *Term, 
 	}
 	key := "ghost." + tk
 	cur := x.objGet(n.st, key, IntS, sc.T)
-	x.Oblige("token", "store into "+x.dynKeyAny(mv)+" needs the token of the stored value", fmt.Sprint(x.curPos), x.curPos, n.guard, Eq(cur, IntLit(2)), nil)
+	internal := x.objGet(n.st, "ghost.internal", BoolS, sc.T)
+	x.Oblige("token", "store into "+x.dynKeyAny(mv)+" needs the token of the stored value", fmt.Sprint(x.curPos), x.curPos, n.guard, Or(Eq(cur, IntLit(2)), internal), nil)
 	n.st.noRecord++
-	x.objSet(n.st, key, sc.T, IntLit(1))
+	x.objSet(n.st, key, sc.T, Ite(internal, cur, IntLit(1)))
 	if slot != "" {
-		x.objSet(n.st, "ghost.v."+slot, sc.T, k)
+		x.objSet(n.st, "ghost.v."+slot, sc.T, Ite(internal, x.objGet(n.st, "ghost.v."+slot, k.S, sc.T), k))
 	}
 	n.st.noRecord--
 }
@@ -289,7 +300,7 @@ func (x *Exec) ghostMapDelete(n *node, mt *types.Map, m, k, was *Term) {
 	key := "ghost." + tk
 	cur := x.objGet(n.st, key, IntS, oldv)
 	n.st.noRecord++
-	mine := And(was, Eq(cur, IntLit(1)))
+	mine := And(was, Eq(cur, IntLit(1)), Not(x.objGet(n.st, "ghost.internal", BoolS, oldv)))
 	if slot != "" {
 		// only the entry the table token belongs to hands it over
 		mine = And(mine, Eq(x.objGet(n.st, "ghost.v."+slot, k.S, oldv), k))
@@ -346,8 +357,9 @@ func (x *Exec) ghostField(st *State, name string, obj *Term, s *Sort) *Term {
 }
 
 // ghostCall evaluates ghost functions in contracts:
-//   gf_<name>(obj)  ghost field of Int sort (addresses: sid of the string), gb_<name>(obj) Bool ghost field,
-//   holds(Lock_name) lock held.
+//
+//	gf_<name>(obj)  ghost field of Int sort (addresses: sid of the string), gb_<name>(obj) Bool ghost field,
+//	holds(Lock_name) lock held.
 func (e *SpecEnv) ghostCall(name string, n *ast.CallExpr) (Value, bool) {
 	x := e.x
 	ref := func(v Value) *Term {
